@@ -761,6 +761,7 @@ func init() {
 			c.ResolvedName("C07")
 			c.DispatchTable("C07")
 			c.PreCheckRules("C07")
+			c.ImmutableAfterConstruction("C09.O5 config.immutable", pkgChecker, "permission table")
 		},
 		Explanation: "The permission decision is decided structurally: Check answers 'allowed' only past the edges [credentials present], [client known], [wallet and account patterns match the names split from the account under test], [this item is not a deny], [this item allows], scanning entries and items forward and in full; patterns are compiled as (?i)^(?:pattern)$; every client-facing operation performs its actions only below a positive check of the name of the resolved wallet/account, with the operation constant its rules are run under. See DESIGN.md §5 C07.",
 		Trusted:     append([]string{"regexp semantics", "the order in which main turns the configuration into the entry list"}, commonTrusted...),
